@@ -24,7 +24,7 @@ def programs(ctx):
         acc = [c for c in F.accepted_for(derived) if any(c[a] for a in R.OPS)]
         c = rng.choice(acc)
         placement = ["named", "tuple", "variant"][i % 3]
-        td = F.single_field_typedef(c, derived, placement, entry=["attr", "derive"][i % 2], keys="consistent", ty=rng.choice(["u8", "u8", "i16", "Option<u8>"]))
+        td = F.single_field_typedef(c, derived, placement, entry=["attr", "derive", "attr_split", "derive", "attr_split_colon", "attr", "attr_split_last", "attr_split_bare", "derive"][i % 9], keys="consistent", ty=rng.choice(["u8", "u8", "i16", "Option<u8>"]))
         # a second plain field makes tie-breaking observable
         plain = {a: () for a in R.OPS}
         v = td.variants[-1] if td.is_enum else td.variants[0]
